@@ -63,15 +63,25 @@ def _cvc5_check(smt2: str, timeout_ms: int):
 
 def _work(job):
     idx, smt2, timeout_ms, cross, use_cvc5 = job
-    r, dt, reason = _z3_check(smt2, timeout_ms)
+    # portfolio: z3 briefly, then cvc5, then z3 with the full budget
+    first = min(timeout_ms, 4000) if use_cvc5 else timeout_ms
+    r, dt, reason = _z3_check(smt2, first)
     backend = "z3"
     log = [("z3", r, round(dt, 3))]
     if r in ("unknown", "error") and use_cvc5:
         r2, dt2, reason2 = _cvc5_check(smt2, timeout_ms)
         log.append(("cvc5", r2, round(dt2, 3)))
+        dt += dt2
         if r2 in ("sat", "unsat"):
             r, backend, reason = r2, "cvc5", ""
-        dt += dt2
+        elif first < timeout_ms:
+            r3, dt3, reason3 = _z3_check(smt2, timeout_ms)
+            log.append(("z3", r3, round(dt3, 3)))
+            dt += dt3
+            if r3 in ("sat", "unsat"):
+                r, reason = r3, ""
+            else:
+                reason = reason3 or reason
     elif cross and r == "unsat":
         r2, dt2, reason2 = _cvc5_check(smt2, timeout_ms)
         log.append(("cvc5", r2, round(dt2, 3)))
@@ -86,7 +96,8 @@ def _work(job):
 def discharge(queries, timeout_ms=20000, procs=None, cross=False, cvc5=True):
     """queries: list of SMT2 strings -> list of dicts(result, backend, time_s, reason, log) in order."""
     procs = procs or min(16, os.cpu_count() or 4)
-    jobs = [(i, q, timeout_ms, cross, cvc5) for i, q in enumerate(queries)]
+    tms = timeout_ms if isinstance(timeout_ms, (list, tuple)) else [timeout_ms] * len(queries)
+    jobs = [(i, q, tms[i], cross, cvc5) for i, q in enumerate(queries)]
     results = [None] * len(jobs)
     if not jobs:
         return results
